@@ -127,6 +127,8 @@ func (r *runner) call(op *Op) {
 		} else {
 			s.ExtNext(p, op.Who, op.ID)
 		}
+	case "nextabort":
+		s.RtNextAbort(p, op.Size)
 	case "response":
 		s.RtResponse(p, "rt", op.ID, op.body(), op.Headers)
 	case "error":
